@@ -1,8 +1,8 @@
-\* C17 scenarios (quick): every tree over 5 candidate paths x 9 link targets x 2 mount modes x 2 secret modes
+\* C17 scenarios (quick): every tree over 5 candidate paths x 9 link targets x 4 mount configurations x 2 secret roots
 SPECIFICATION Spec
 CONSTANTS
   TargetIds = {1, 3, 4, 7, 9, 10, 12, 13, 15}
-  MountModes = {"outside", "beneath"}
-  SecretModes = {"outside", "beneath"}
+  MountCfgIds = {2, 3, 5, 6}
+  SecretIds = {2, 4}
 INVARIANTS Emit
 CHECK_DEADLOCK FALSE
